@@ -316,7 +316,41 @@ def rule_tables(chk, rid, families=None, floor=300):
                                     name, rel, len(c), c[:16].hex(), len(others), others[0]))
 
 
+UNREACH_BASELINE = _os.path.join(_os.path.dirname(DU_BASELINE), 'unreach_baseline.json')
+
+
+def write_unreach_baseline():
+    from .. import unreach
+    cur = unreach.unreachable()
+    with open(UNREACH_BASELINE, 'w') as fh:
+        _json.dump({'what': 'per assembly unit: instructions no direct control flow from a global entry reaches (jump-table targets, data in '
+                            'text and genuinely dead code alike) on the reference tree', 'units': {k: v['dead'] for k, v in sorted(cur.items())}}, fh, indent=0)
+    return len(cur), sum(v['dead'] for v in cur.values())
+
+
+def rule_unreachable(chk, rid, families=None, floor=50, also=None):
+    """a dropped `jmp`, a branch retargeted to the wrong label, or a case cut out of a dispatch chain leaves the instructions of that case
+    unreachable; counted per unit against the reference tree (units with jump tables have a stable non-zero count)"""
+    from .. import unreach
+    r = chk.rule(rid, 'no assembly unit has more instructions that direct control flow from its entry points cannot reach than on the reference '
+                      'tree: a case of a dispatch chain has not been cut off', floor=floor)
+    if not _os.path.exists(UNREACH_BASELINE):
+        chk.broken('unreachable-code baseline missing')
+        return
+    base = _json.load(open(UNREACH_BASELINE))['units']
+    for rel, v in sorted(unreach.unreachable().items()):
+        fam = 'mgr' if '/mb_mgr_' in rel else family_of(rel, '')
+        if families is not None and fam not in families and not (also and re.search(also, rel)):
+            continue
+        if rel not in base:
+            r.ok(rel + ':new', 'unit not on the reference tree')
+            continue
+        r.check(v['dead'] <= base[rel], rel, rel, '%s: %d instructions are unreachable by direct control flow (reference tree: %d); first unreachable '
+                                                  'code at %s' % (rel, v['dead'], base[rel], '; '.join('%s+%s `%s`' % (w[0], w[1], w[2]) for w in v['where'][:6])))
+
+
 if __name__ == '__main__':
     import sys as _sys
     if '--write-baseline' in _sys.argv:
         print(write_du_baseline())
+        print(write_unreach_baseline())
